@@ -1,7 +1,8 @@
 """C11 - simulated buffers are well-formed for every generator and instrument.
 R1 outputs have (n_paths, n_steps) columns; R2 column 0 is the requested initial state; R3 dtype/device provenance of every factory
 in pfhedge.stochastic and of cast_state; R4 exponential-type prices are init*exp(.), volatility = sqrt(clamp(variance,0));
-R5 simulate() registers every field of one generator call; R6 every generator terminates."""
+R5 simulate() registers every field of one generator call; R6 every generator terminates; R7 no uninitialised column of a torch.empty
+output; R8 the quadratic-exponential variance step maps V >= 0 to V >= 0 (inductive sign certificate; Heston variance = that series)."""
 import ast
 
 import sympy as sp
